@@ -38,9 +38,11 @@ FailC20(r) ==
   IF r.err # "" THEN {"Raised"}
   ELSE LET S0 == BaseState(r.count, 0, FALSE)
            T  == TheState(Post_LoadAdjDict(S0, DecodeAdj(r.adj), r.k))
+           \* the samples are only known when the code drew them through random.sample (observed from outside);
+           \* an implementation drawing them another way is judged on the post-condition alone
+           seen == Len(DecodeAdj(r.adj)) = r.count
        IN    Tag(RandGraphPost(r.post, 1, r.count, r.k, r.ensure, 1), "RandGraphPost")
-        \cup Tag(r.post = T, "EqualsLoadAdjDictOfSamples")
-        \cup Tag(Len(DecodeAdj(r.adj)) = r.count, "OneSamplePerVertex")
+        \cup (IF seen THEN Tag(r.post = T, "EqualsLoadAdjDictOfSamples") ELSE {})
 
 Fails(r) == IF Prop = "C11" THEN FailC11(r) ELSE FailC20(r)
 
